@@ -461,7 +461,14 @@ class PoolManager(RequestMethods):
             kw["body"] = None
             kw["headers"] = HTTPHeaderDict(kw["headers"])._prepare_for_method_change()
 
-        retries = kw.get("retries", response.retries)
+        retries = kw.get("retries")
+        if retries is None:
+            # Not given, or given as None: the pool/manager-level policy
+            # applies. The pool was called with redirect=False, so an int or
+            # False is converted here, where the redirects are followed.
+            retries = (
+                response.retries if isinstance(conn.retries, Retry) else conn.retries
+            )
         if not isinstance(retries, Retry):
             retries = Retry.from_int(retries, redirect=redirect)
 
